@@ -4,6 +4,7 @@ package main
 
 import (
 	"fmt"
+	"go/types"
 	"strings"
 
 	"golang.org/x/tools/go/ssa"
@@ -27,6 +28,8 @@ func runC09(c *Ctx) {
 	m := c.Root()
 	r := c.R
 	c09HeaderVerified(c, m, "C09.name-carries-begin")
+	// a rotation that cannot compute the next span does not stay attached to the finished file
+	c.R.As(map[string]string{"C05.fail-parks": "C09.rotate-on-change"}, func() { c05FailParks(c, m) })
 	we := m.Func("internal/counter", "weekEnd")
 	rot := m.Func("internal/counter", "file.rotate1")
 	// the span function: the one function reachable from rotate1 that constructs times
@@ -214,6 +217,34 @@ func runC09(c *Ctx) {
 		}
 		r.Check("C09.weekend-fresh", "counterSpan/calls weekEnd on the success path", m.Pos(ret.Pos()), dominated || incr == nil, "the span must be computed from a fresh reading")
 	}
+
+	// the digit is the first byte of the setting after white space was trimmed (" 5\n", "\n5\n" and
+	// "5\n" are the same setting; a file of white space is a malformed one)
+	nDigit := 0
+	for _, in := range instrsOf(we) {
+		var x ssa.Value
+		switch v := in.(type) {
+		case *ssa.IndexAddr:
+			x = v.X
+		case *ssa.Index:
+			x = v.X
+		case *ssa.Lookup:
+			if _, isStr := v.X.Type().Underlying().(*types.Basic); isStr {
+				x = v.X
+			}
+		}
+		if x == nil {
+			continue
+		}
+		d := describe(x)
+		if !strings.Contains(d, "os.ReadFile(") {
+			continue
+		}
+		nDigit++
+		okTrim := strings.HasPrefix(d, "bytes.TrimSpace(") || strings.HasPrefix(d, "strings.TrimSpace(") || strings.HasPrefix(d, "bytes.Fields(") || strings.HasPrefix(d, "strings.Fields(")
+		r.Check("C09.weekend-fresh", "weekEnd/the digit is read from the trimmed setting", m.Pos(in.Pos()), okTrim, "the byte that names the weekday must come from TrimSpace(file contents); got an element of "+shortDesc(d))
+	}
+	r.Check("C09.weekend-fresh", "weekEnd/reads the digit from the file", m.Pos(we.Pos()), nDigit >= 1, fmt.Sprintf("%d element reads of the file's contents", nDigit))
 
 	// ---- name and header carry begin/end -----------------------------------------
 	nName, nHdr := 0, 0
